@@ -386,39 +386,44 @@ def scanSlots (w : World) (si o : Nat) : Nat → Nat → Nat → World × Option
       let (w', ok) := internalSendrq w si i o
       if ok then (w', some i) else scanSlots w' si o fuel (i + 1) upto
 
+/-- `errexit` of sendrq: forget the request (remove it from its client's cache, release it) -/
+def sendrqFail (w : World) (o rqid : Nat) : World :=
+  let w := match (getRq w o).bind (·.frm) with
+    | some _ => rmclientrq w o rqid
+    | none => w
+  freerq w o
+
+/-- first usable identifier: 1 while status-server is enabled (0 is reserved for the probe) -/
+def startId (s : Server) : Nat := if s.ss = ssOff then 0 else 1
+
+/-- the placement part of sendrq: probe into identifier 0, anything else by the two scans from the cursor -/
+def sendrqPlace (w : World) (si o : Nat) (s : Server) (isProbe : Bool) : World × Bool :=
+  if startId s ≠ 0 ∧ isProbe then internalSendrq w si 0 o
+  else
+    let nextid := if s.nextid = 0 then startId s else s.nextid
+    let w := updSrv w si fun s' => { s' with nextid := nextid }
+    match scanSlots w si o 256 nextid 256 with
+    | (w1, some i) => (updSrv w1 si fun s' => { s' with nextid := if i ≥ startId s then i + 1 else s'.nextid }, true)
+    | (w1, none) =>
+      match scanSlots w1 si o 256 (startId s) nextid with
+      | (w2, some i) => (updSrv w2 si fun s' => { s' with nextid := if i ≥ startId s then i + 1 else s'.nextid }, true)
+      | (w2, none) => (w2, false)
+
 /-- `sendrq(rq)` -/
 def sendrq (w : World) (o : Nat) : World :=
   match getRq w o with
   | none => w
   | some r =>
-    let fail (w : World) : World :=
-      let w := match (getRq w o).bind (·.frm) with
-        | some _ => rmclientrq w o r.rqid.toNat
-        | none => w
-      freerq w o
     match r.to with
-    | none => fail w
+    | none => sendrqFail w o r.rqid.toNat
     | some si =>
       match getSrv w si with
-      | none => fail w
+      | none => sendrqFail w o r.rqid.toNat
       | some s =>
-        let start := if s.ss = ssOff then 0 else 1
         let isProbe : Bool := match r.msg with | some m => decide (m.code = 12) | none => false
-        let (w, placed) : World × Bool :=
-          if start ≠ 0 ∧ isProbe then internalSendrq w si 0 o
-          else
-            let nextid := if s.nextid = 0 then start else s.nextid
-            let w := updSrv w si fun s => { s with nextid := nextid }
-            let (w1, r1) := scanSlots w si o 256 nextid 256
-            match r1 with
-            | some i => (updSrv w1 si fun s => { s with nextid := if i ≥ start then i + 1 else s.nextid }, true)
-            | none =>
-              let (w2, r2) := scanSlots w1 si o 256 start nextid
-              match r2 with
-              | some i => (updSrv w2 si fun s => { s with nextid := if i ≥ start then i + 1 else s.nextid }, true)
-              | none => (w2, false)
-        if placed then updSrv w si fun s => { s with newrq := true }
-        else fail w
+        let res := sendrqPlace w si o s isProbe
+        if res.2 then updSrv res.1 si fun s => { s with newrq := true }
+        else sendrqFail res.1 o r.rqid.toNat
 
 /-! ### request path -/
 
